@@ -197,6 +197,8 @@ struct PathRun<'a> {
     /// it touches (path compression), so a history that is watched after every call never has a stale union-find
     /// chain when the next call arrives
     quiet: bool,
+    /// number of this path within its job (varies which of the old handles are compared before they are canonicalised)
+    nth: usize,
     findings: Vec<Finding>,
     stats: Stats,
 }
@@ -370,7 +372,7 @@ impl<'a> PathRun<'a> {
             for (hi, (ui, h)) in handles.iter().enumerate() {
                 // the first query after a change is the interesting one (later ones may find a compressed path):
                 // half of the handles are compared first, the other half canonicalised first
-                let eq_first = (hi + self.stats.paths) % 2 == 0;
+                let eq_first = (hi + self.nth / 4) % 2 == 0;
                 let r = guard(|| {
                     let cur = obs.found[*ui].clone();
                     let same0 = if eq_first { cur.as_ref().map(|c| if hi % 4 < 2 { eg.eq(c, h) } else { eg.eq(h, c) }) } else { None };
@@ -471,6 +473,7 @@ impl<'a> PathRun<'a> {
                 }
                 self.check_extraction(spec, &obs, &eg, &key, path, step + 1);
                 self.check_old_handles_extract(&eg, &handles, &key, path, step + 1);
+                self.check_old_handle_nodes(spec, &obs, &mut eg, &handles, &key, path, step + 1);
                 self.readd(spec, &obs, &mut eg, &key, path, step + 1);
             }
             prev_obs = Some(obs);
@@ -958,6 +961,58 @@ impl<'a> PathRun<'a> {
         }
     }
 
+    /// C09 with invocations that were handed out EARLIER: an e-node whose children are old handles (of classes that may
+    /// since have been merged away, have lost slots or gained symmetries) denotes the same term as before; `lookup` must
+    /// find it exactly when `add` creates nothing, and both must return the invocation of the term.
+    fn check_old_handle_nodes<N: AnKind>(&mut self, spec: &SpecObs, obs: &ImplObs, eg: &mut EGraph<T, N>, handles: &[(usize, AppliedId)],
+                                         key: &[usize], path: &[(usize, bool)], step: usize) {
+        let ctx = self.ctx;
+        let mut first: HashMap<usize, &AppliedId> = HashMap::new();
+        for (ui, h) in handles { first.entry(*ui).or_insert(h); }
+        for i in 0..ctx.us.len() {
+            if spec.lab[i] == 0 || ctx.us[i].ch.is_empty() { continue; }
+            let Some(found) = obs.found[i].clone() else { continue };
+            let kids: Vec<Option<&&AppliedId>> = ctx.us[i].ch.iter().map(|c| ctx.us_index.get(&c.t).and_then(|j| first.get(j))).collect();
+            if kids.iter().any(|k| k.is_none()) { continue; }
+            let ex = if self.lazy { to_recexpr::<T>(&ctx.us[i], self.nm).unwrap() } else { self.us_exprs[i].clone() };
+            let mut node = ex.node.clone();
+            for (r, k) in node.applied_id_occurrences_mut().into_iter().zip(kids.iter()) { *r = (**k.unwrap()).clone(); }
+            self.stats.readds += 1;
+            let before = (progress_of(eg), eg.total_number_of_nodes());
+            let r = guard(|| {
+                let l = eg.lookup(&node);
+                let le = l.as_ref().map(|a| eg.eq(a, &found));
+                let a = eg.add(node.clone());
+                let ae = eg.eq(&a, &found);
+                (l.is_some(), le, ae)
+            });
+            let after = (progress_of(eg), eg.total_number_of_nodes());
+            match r {
+                Err(p) => {
+                    self.stats.panics += 1;
+                    self.finding("C08", "panic in lookup/add of an e-node built from earlier invocations", key, path, step, &site_key(&p), json!({"msg": p.msg, "term": ctx.us[i].show()}));
+                    return;
+                }
+                Ok((lsome, le, ae)) => {
+                    if !lsome {
+                        self.finding("C09", "lookup fails for a represented e-node whose children are earlier invocations", key, path, step, "", json!({"term": ctx.us[i].show()}));
+                        return;
+                    }
+                    if le != Some(true) || !ae {
+                        self.finding("C09", "lookup / add of an e-node built from earlier invocations does not return the term's invocation", key, path, step, "",
+                            json!({"term": ctx.us[i].show(), "lookup_equal": format!("{le:?}"), "add_equal": ae}));
+                        return;
+                    }
+                    if before != after {
+                        self.finding("C09", "adding a represented e-node built from earlier invocations changed the e-graph", key, path, step, "",
+                            json!({"term": ctx.us[i].show(), "before": format!("{before:?}"), "after": format!("{after:?}")}));
+                        return;
+                    }
+                }
+            }
+        }
+    }
+
     fn readd<N: AnKind>(
         &mut self,
         spec: &SpecObs,
@@ -1153,7 +1208,7 @@ fn main() {
                                 // when the first term that mentions it is inserted
                                 let lazy = kind == "fresh-lazy";
                                 let nm_path = if lazy { Naming::new(&kind, ctx2.uni.n) } else { nm.clone() };
-                                let mut pr = PathRun { ctx: &ctx2, nm: &nm_path, us_exprs: &us_exprs, pool_exprs: &pool_exprs, lazy, mode, full_match: count == 1, quiet: count % 4 == 3, findings: Vec::new(), stats: Stats::default() };
+                                let mut pr = PathRun { ctx: &ctx2, nm: &nm_path, us_exprs: &us_exprs, pool_exprs: &pool_exprs, lazy, mode, full_match: count == 1, quiet: count % 4 == 3, nth: count, findings: Vec::new(), stats: Stats::default() };
                                 let fp = match count % 3 { 0 => pr.run::<()>(&path), 1 => pr.run::<SizeDepth>(&path), _ => pr.run::<Leaves>(&path) };
                                 stats.paths += pr.stats.paths;
                                 stats.steps += pr.stats.steps;
